@@ -235,18 +235,18 @@ func (w *srvWorld) checkC08(active0 string) {
 				proven = false
 			}
 		}
-		for seq := msg.Arrive + 1; seq < len(r.Sim.Events) && seq < fc; seq++ {
-			if e := r.Sim.Events[seq]; e.Kind == "ch.recv" && e.Tag == "srv" {
-				proven = true
-				break
-			}
+		// received before the stop, whatever the reader's structure (one loop, or a
+		// reader feeding a decoder): a quiescent point lies between the arrival and
+		// the first stop cause, so the server has dealt with the record
+		if settled < fc {
+			proven = true
 		}
 		if !proven {
 			continue
 		}
 		for _, m := range msg.Members {
 			if m.Kind == mNote && m.Enters == 0 {
-				how := "and enqueued (the server had called Recv again) before the first stop cause"
+				how := "and dealt with (a quiescent point followed) before the first stop cause"
 				if msg.WithEOF {
 					how = "as the final record of the stream (Recv returned it together with io.EOF, and no other stop cause came first), which is before the stop that this end of stream causes"
 				}
@@ -413,7 +413,9 @@ func (w *srvWorld) servedAfter(c stopCause) bool {
 		for _, m := range msg.Members {
 			// (notifications received before a stop are still run after it: only a
 			// call proves that the server was dispatching)
-			if m.Kind == mCall && m.Enter > qp && m.Enter < w.waitSeq {
+			// ... and only when it was handed a live context: a stopped server that
+			// is winding down may still enter handlers, with cancelled contexts
+			if m.Kind == mCall && m.Enter > qp && m.Enter < w.waitSeq && len(m.CtxObs) > 0 && m.CtxObs[0].Err == "" {
 				return true
 			}
 		}
